@@ -306,7 +306,19 @@ func execC13(x *X, scAny any) {
 	s.Spawn("client", func() {
 		o := []kmipclient.Option{kmipclient.WithDialerUnsafe(dialer)}
 		if !sc.Default {
-			o = append(o, kmipclient.WithKmipVersions(permute(cset, sc.Order)...))
+			// the configured set is what matters, not how it was spelled: one call or two, with or without repeats
+			vs := permute(cset, sc.Order)
+			switch sc.Order % 4 {
+			case 1:
+				k := len(vs) / 2
+				o = append(o, kmipclient.WithKmipVersions(vs[:k]...), kmipclient.WithKmipVersions(vs[k:]...))
+			case 2:
+				o = append(o, kmipclient.WithKmipVersions(append(slices.Clone(vs), vs[0])...))
+			case 3:
+				o = append(o, kmipclient.WithKmipVersions(vs...), kmipclient.WithKmipVersions(vs[len(vs)-1]))
+			default:
+				o = append(o, kmipclient.WithKmipVersions(vs...))
+			}
 		}
 		if sc.Enforce >= 0 {
 			o = append(o, kmipclient.EnforceVersion(allVersions[sc.Enforce]))
